@@ -317,6 +317,7 @@ class Runner:
 
 class C11(Check):
     pid = "C11"
+    case_timeout = 600
     level = "model_checking"
     rule = ("states are event histories: all sequences of do(c) (18 change shapes over {a.py,b.py,d/,d/a.py,e/}, incl. "
             "two-step sets and removals), undo(), redo(), undo(change=undo_list[i]), redo(change=redo_list[i]), undo(drop=True) "
@@ -345,7 +346,12 @@ class C11(Check):
             evs = DO_EVENTS if alpha == "full" else DO_SMALL
             m0 = HistModel(limit)
             for e1 in m0.enabled_events(evs):
-                out.append({"limit": limit, "alpha": alpha, "depth": depth, "first": list(e1)})
+                if depth >= 5:
+                    # deep sub-trees are split by the index of the second event so that one case stays well below the per-case time limit
+                    for k in range(8):
+                        out.append({"limit": limit, "alpha": alpha, "depth": depth, "first": list(e1), "slice": [k, 8]})
+                else:
+                    out.append({"limit": limit, "alpha": alpha, "depth": depth, "first": list(e1)})
         return out
 
     def setup_worker(self):
@@ -368,9 +374,12 @@ class C11(Check):
         while stack:
             seq = stack.pop()
             m, verdict = runner.replay(seq)
-            res["n"] += 1
-            res["trans"] += 1
-            res["traces"] += 1
+            if len(seq) == 1 and case.get("slice", [0])[0] > 0:
+                verdict = None       # the root of a sliced sub-tree is judged in slice 0
+            else:
+                res["n"] += 1
+                res["trans"] += 1
+                res["traces"] += 1
             last = seq[-1]
             res["mech"][last[0]] = res["mech"].get(last[0], 0) + 1
             if verdict is not None:
@@ -395,7 +404,10 @@ class C11(Check):
             if "exact" in case:
                 continue
             if len(seq) < depth:
-                for ev in reversed(m.enabled_events(evs)):
+                nxt = m.enabled_events(evs)
+                if len(seq) == 1 and "slice" in case:
+                    nxt = [ev for i, ev in enumerate(nxt) if i % case["slice"][1] == case["slice"][0]]
+                for ev in reversed(nxt):
                     stack.append(seq + [ev])
         res["sample"] = {"limit": limit, "first_event": ev_str(first), "depth": depth}
         return res
